@@ -280,6 +280,9 @@ def _as_uid(uid, fn):
         try:
             os.close(r)
             if uid:
+                # the harness's own directory may not be traversable for the unprivileged uid (a snapshot under
+                # /root): _body returns to its starting directory at the end, so start from one every uid can enter
+                os.chdir("/")
                 os.setgroups([])
                 os.setgid(uid)
                 os.setuid(uid)
